@@ -34,6 +34,7 @@ def gen_cfg(rng, idx):
             "qtype": rng.choice(list(proto.QTYPES.values())),
             # the server is given its password on standard input (no -P, no environment variable) when that is possible
             "pw_stdin": rng.random() < 0.3 and b"\n" not in pw and b"\0" not in pw and pw.strip() == pw and len(pw) <= 32,
+            "jail": rng.random() < 0.25,
             "rseed": rng.getrandbits(32)}
 
 
@@ -75,6 +76,8 @@ def run_history(tag, cfg, seed, nops=None):
     H.attacks = {}         # (kind, target state, source) -> count
     H.ident = 1
     extra = ["-c"] if cfg["check_ip_off"] else []
+    if cfg.get("jail"):
+        extra += ["-t", "/var/empty"]          # iodined chroots into an empty directory after start-up
     H.srv = sim.server(tun=cfg["tun"], password=H.password, extra=extra, password_on_stdin=bool(cfg.get("pw_stdin")))
     if not H.srv.alive():
         H.why = "server-died-at-start"
